@@ -838,6 +838,106 @@ def _hdf5(ctx, cfg, tmp):
     ctx.check(pre + "counters stay independent", _truth(ctx, O.execution_statistics.n_executions == m0 == exp["n_exec"] and R.execution_statistics.n_executions == exp["n_exec"] + 1))
 
 
+# ------------------------------------------------------------------------------------------------
+# grammars on their own (classes and user subclasses), at solver-chosen moments of their life
+# ------------------------------------------------------------------------------------------------
+def _grammar_class(kind):
+    """JSONGrammar / SimpleGrammar or a user subclass of them (module-level, hence picklable by reference)."""
+    from gemseo.core.grammars.json_grammar import JSONGrammar
+    from gemseo.core.grammars.simple_grammar import SimpleGrammar
+
+    base = {"json": JSONGrammar, "simple": SimpleGrammar}[kind.split("_")[0]]
+    if not kind.endswith("_sub"):
+        return base
+    name = f"Sub{base.__name__}"
+    if name not in globals() or globals()[name].__mro__[1] is not base:
+        cls = type(name, (base,), {"__module__": __name__, "__qualname__": name, "__doc__": "A user subclass without any change."})
+        globals()[name] = cls
+    return globals()[name]
+
+
+GRAMMAR_EDITS = ("none", "restrict", "delete", "rename", "optional", "default", "add", "namespace")
+
+
+def h_grammar(ctx, cfg):
+    tmp = tempfile.mkdtemp(prefix="c20_", dir="/tmp")
+    try:
+        _grammar(ctx, cfg, tmp)
+    finally:
+        shutil.rmtree(tmp, ignore_errors=True)
+
+
+def _grammar(ctx, cfg, tmp):
+    """A grammar (not attached to a discipline) serialized after validate? -> edit -> validate?: the restored one exposes the same
+    elements, required names, defaults and namespaces, accepts / rejects the same data, and shares no state with the original."""
+    from gemseo.core.grammars.errors import InvalidDataError
+
+    cls = _grammar_class(cfg["cls"])
+    g = cls("g")
+    g.update_from_types({"a": float, "b": int, "c": str})
+    g.defaults["b"] = 3
+    names, required, defaults = ["a", "b", "c"], {"a", "b", "c"}, {"b": 3}
+    good = {"a": 1.5, "b": 2, "c": "s", "d": 0.5}
+
+    def observe(tag):
+        for present in (("a", "b", "c"), ("a", "c"), ("b", "c")):
+            data = {k: good[k] for k in present if k in good}
+            try:
+                g.validate(data)
+            except InvalidDataError:
+                pass
+
+    if ctx.flag("validated_before_edit"):  # (a JSON grammar caches its schema and validator at the first validation)
+        observe("before")
+    edit = GRAMMAR_EDITS[ctx.choice("edit", len(GRAMMAR_EDITS))]
+    if edit == "restrict":
+        g.restrict_to(["a", "b"]); names = ["a", "b"]; required -= {"c"}
+    elif edit == "delete":
+        del g["b"]; names = ["a", "c"]; required -= {"b"}; defaults = {}
+    elif edit == "rename":
+        g.rename_element("a", "d"); names = ["d", "b", "c"]; required = {"d", "b", "c"}
+    elif edit == "optional":
+        g.required_names.discard("c"); required -= {"c"}
+    elif edit == "default":
+        g.defaults["a"] = 0.25; defaults = {"b": 3, "a": 0.25}
+    elif edit == "add":
+        g.update_from_types({"d": float}); names = ["a", "b", "c", "d"]; required |= {"d"}
+    elif edit == "namespace":
+        g.add_namespace("a", "ns"); names = ["ns:a", "b", "c"]; required = {"ns:a", "b", "c"}
+    if ctx.flag("validated_after_edit"):
+        observe("after")
+    route = ROUTES[ctx.choice("route", len(ROUTES))]
+    pre = f"grammar/{cfg['cls']}/{edit}/{route}: "
+    before = _grammar_facts(g)
+    r = _round_trip(g, route, tmp)
+    ctx.check(pre + f"restored is an instance of the same class ({type(r).__name__})", _truth(ctx, type(r) is cls and r is not g))
+    fo, fr = _grammar_facts(g), _grammar_facts(r)
+    ctx.check(pre + f"serializing does not change the original {_diff_facts(before, fo)[:3]}", _truth(ctx, not _diff_facts(before, fo)))
+    ctx.check(pre + f"restored exposes the same elements, required names, defaults and namespaces {_diff_facts(fo, fr)[:3]}", _truth(ctx, not _diff_facts(fo, fr)))
+    # ... and these are the ones the life of the grammar defines (independent expectations; the order of the elements is not asserted)
+    ctx.check(pre + f"restored names {fr['names']} == {sorted(names)}", _truth(ctx, sorted(fr["names"]) == sorted(names)))
+    ctx.check(pre + f"restored required names {fr['required']} == {sorted(required)}", _truth(ctx, fr["required"] == sorted(required)))
+    ctx.check(pre + f"restored defaults {sorted(fr['defaults'])} == {sorted(defaults)}", _truth(ctx, sorted(fr["defaults"]) == sorted({("ns:a" if (k == "a" and edit == "namespace") else k) for k in defaults})))
+    # same verdicts on the same data (required names missing, a wrong type, an unknown extra name)
+    key = {"a": "ns:a" if edit == "namespace" else ("d" if edit == "rename" else "a")}
+    cases = [dict(good), {k: v for k, v in good.items() if k != "c"}, {k: v for k, v in good.items() if k != "a"}, dict(good, b="x"), dict(good, c=1.5)]
+    for i, data in enumerate(cases):
+        data = {key.get(k, k): v for k, v in data.items() if key.get(k, k) in names or k == "d"}
+        verdicts = []
+        for who in (g, r):
+            try:
+                who.validate(dict(data))
+                verdicts.append(True)
+            except InvalidDataError:
+                verdicts.append(False)
+        ctx.check(pre + f"case {i}: restored.validate agrees with original.validate ({verdicts})", _truth(ctx, verdicts[0] == verdicts[1]))
+    # no shared state: an element added to one is not seen by the other
+    target, other = (r, g) if ctx.flag("mutate_restored") else (g, r)
+    target.update_from_types({"zz": float})
+    target.defaults["zz"] = 1.0
+    ctx.check(pre + "original and restored share no state", _truth(ctx, "zz" not in other and "zz" not in other.defaults and "zz" not in other.required_names))
+
+
 def h_memory_full(ctx, cfg):
     """A discipline with a MemoryFullCache: the round trip must work; an unshared cache is carried over by value."""
     from gemseo.core.discipline import Discipline
@@ -1511,6 +1611,9 @@ def configs(tier):
             # linearization: AnalyticDiscipline leaves the Jacobian block of a namespaced input at zero, serialized or not)
             add(obj, "json", "simple", "exec", namespace=True, linearize=False)
             add(obj, "simple", "none", "defaults+exec", namespace=True, linearize=False)
+    # grammars on their own, user subclasses included
+    for cls in ("json", "json_sub", "simple", "simple_sub"):
+        out.append(("grammar", dict(cls=cls)))
     # file-based cache (concrete)
     for obj, moment, tol in (("analytic", "exec", 0.0), ("analytic", "exec2+lin", 0.25), ("chain", "lin", 0.0), ("arrayfn", "exec2", 0.25)):
         out.append(("hdf5", dict(obj=obj, moment=moment, tol=tol)))
@@ -1537,5 +1640,5 @@ def configs(tier):
     return out
 
 
-HARNESSES = {"disc": h_disc, "hdf5": h_hdf5, "memory_full": h_memory_full, "mda": h_mda, "func": h_func, "space": h_space,
+HARNESSES = {"grammar": h_grammar, "disc": h_disc, "hdf5": h_hdf5, "memory_full": h_memory_full, "mda": h_mda, "func": h_func, "space": h_space,
              "problem": h_problem, "scenario": h_scenario}
